@@ -74,6 +74,7 @@ static CC_HashSet *hs;
 static CC_HashSetIter it; static int it_valid, it_can_remove;
 static uint64_t universe[4096]; static size_t n_univ;
 static unsigned long long ord_log[4096]; static size_t ord_n; static int ord_on;
+static char extra_phys[64]; /* out-value of remove/iter_remove: the table's dummy value, judged at L3 only */
 static void shim_reset(void) { hs = NULL; it_valid = it_can_remove = 0; n_univ = 0; }
 static void univ_add(uint64_t k) {
     for (size_t i = 0; i < n_univ; i++) if (universe[i] == k) return;
@@ -126,6 +127,7 @@ static void phys(void) {
     o_end();
     if (it_valid) { char b1[32], b2[32]; o(" it=%zu/%s/%s/%d", it.iter.bucket_index, ptr_name(it.iter.prev_entry, b1), ptr_name(it.iter.next_entry, b2), it_can_remove); }
     if (ord_on) { o(" "); O_LIST("ord"); for (size_t i = 0; i < ord_n; i++) o_item(ord_log[i]); o_end(); }
+    o("%s", extra_phys);
     /* L2 walkers */
     if (total != ht->size) o(" WALK=chain-lengths-vs-size");
     if (ht->capacity == 0 || (ht->capacity & (ht->capacity - 1))) o(" WALK=capacity-not-pow2");
@@ -139,7 +141,7 @@ static void phys(void) {
     }
 }
 static void do_op(Cmd *c) {
-    ord_on = 0; ord_n = 0;
+    ord_on = 0; ord_n = 0; extra_phys[0] = 0;
     if (is_op(c, "new")) {
         CC_HashSetConf conf; conf_from_cmd(c, &conf);
         hs = NULL; it_valid = 0;
@@ -158,7 +160,7 @@ static void do_op(Cmd *c) {
     } else if (is_op(c, "remove")) {
         void *out = PTR(777777); int noout = (int)kv_u64(c, "noout", 0); it_valid = 0;
         enum cc_stat st = cc_hashset_remove(hs, mkkey(pos_u64(c, 0)), noout ? NULL : &out);
-        o_stat(st); if (st == CC_OK && !noout) o(" out=%llu", VAL(out)); else if (out != PTR(777777)) o(" WALK=out-written"); o(" ");
+        o_stat(st); if (st == CC_OK && !noout) snprintf(extra_phys, sizeof extra_phys, " rmout=%llu", VAL(out)); else if (out != PTR(777777)) o(" WALK=out-written"); o(" ");
     } else if (is_op(c, "remove_all")) {
         it_valid = 0; cc_hashset_remove_all(hs); o("st=- ");
     } else if (is_op(c, "foreach")) {
@@ -174,7 +176,7 @@ static void do_op(Cmd *c) {
         if (!it_valid || !it_can_remove) o("st=- noiter ");
         else { void *out = PTR(777777); int noout = (int)kv_u64(c, "noout", 0);
             enum cc_stat st = cc_hashset_iter_remove(&it, noout ? NULL : &out); it_can_remove = 0;
-            o_stat(st); if (st == CC_OK && !noout) o(" out=%llu", VAL(out)); o(" "); }
+            o_stat(st); if (st == CC_OK && !noout) snprintf(extra_phys, sizeof extra_phys, " rmout=%llu", VAL(out)); o(" "); }
     } else if (is_op(c, "destroy")) {
         cc_hashset_destroy(hs); hs = NULL; it_valid = 0; o("st=- ");
     } else { o("st=- badop "); }
